@@ -113,6 +113,7 @@ Mutations(name, S, d) ==
   \cup {Mut("unknown-key-in-free", t) : t \in FreeOf(S, d)}     \* inside free-form metadata: fine
   \cup {Mut("delete", p) : p \in {q \in d : Field(S, q).req}}   \* a required key removed
   \cup {Mut("retype", p) : p \in Scalars(S, d)}                 \* a value of the wrong kind
+  \cup {Mut("retype-table", p) : p \in TablesOf(S, d) \ {Root}} \* an array where a table must be
   \cup (IF name = "component" THEN {Mut("add", "order")} ELSE {})
   \cup (IF name = "composite" THEN {Mut("add", "targets"), Mut("add", "stacks")} ELSE {})
 
